@@ -425,8 +425,8 @@ def extractGoal (k : Cls) (input : Str) : R Str :=
         | none => .panic
         | some g => let g := trim k g; if g.isEmpty then .err else .ok g
 
-/-- `\s` of the regex engine on the inputs explored: ASCII white space -/
-def reWhite (c : Char) : Bool := c == ' ' || c == '\t' || c == '\n' || c == '\r' || c.toNat == 11 || c.toNat == 12
+/-- `\s` of the regex engine (`rexile`), as observed: blank, tab, CR, LF — not VT / FF, not Unicode white space -/
+def reWhite (c : Char) : Bool := c == ' ' || c == '\t' || c == '\n' || c == '\r'
 
 /-- scanner standing for the regex `query\s+"([^"]+)"\s*\{` (unanchored); agreement with `rexile` is
 covered by the correspondence check only -/
@@ -452,6 +452,51 @@ def hasQueryName : Str → Bool
 def grlQueryParse (k : Cls) (s : Str) : R Str :=
   let input := trim k s
   if hasQueryName input then extractGoal k input else .err
+
+/-! ### numeric attributes `max-depth:` / `max-solutions:` (`extract_max_depth`, `extract_max_solutions`) -/
+
+/-- scanner standing for the regex `<key>:\s*(\d+)` at one position: the captured (ASCII) digit run -/
+def numAttrAt (key : Str) (r : Str) : Option Str :=
+  if (key ++ [':']).isPrefixOf r then
+    let ds := ((r.drop (key.length + 1)).dropWhile reWhite).takeWhile isDigit
+    if ds.isEmpty then none else some ds
+  else none
+
+/-- leftmost match (`Pattern::captures`) -/
+def findNumAttr (key : Str) : Str → Option Str
+  | [] => none
+  | c :: cs => match numAttrAt key (c :: cs) with
+    | some ds => some ds
+    | none => findNumAttr key cs
+
+/-- `caps[1].parse::<usize>()`: the outcome of the CONVERSION of a digit run (64-bit target) -/
+def parseUsizeDigits (ds : Str) : Option Nat :=
+  let v := digitsVal ds
+  if v ≤ 18446744073709551615 then some v else none
+
+/-- `re.captures(input).and_then(|caps| caps[1].parse().ok())`: a run that does not fit `usize` is IGNORED (`.ok()`), never
+unwrapped — `R` so that the no-panic statement is about this code path (`numAttrUnwrap` is the unwrapping variant) -/
+def numAttr (key : Str) (input : Str) : R (Option Nat) :=
+  match findNumAttr key input with
+  | none => .ok none
+  | some ds => .ok (parseUsizeDigits ds)
+
+/-- the variant that unwraps the conversion (`.map(|caps| caps[1].parse().expect(..))`): refuted by `numAttrUnwrap_counterexample` -/
+def numAttrUnwrap (key : Str) (input : Str) : R (Option Nat) :=
+  match findNumAttr key input with
+  | none => .ok none
+  | some ds => match parseUsizeDigits ds with
+    | some n => .ok (some n)
+    | none => .panic
+
+/-- `(query.max_depth, query.max_solutions)` after `GRLQueryParser::parse`: defaults 10 and 1 (`GRLQuery::new`) -/
+def grlQueryNums (k : Cls) (s : Str) : R (Nat × Nat) :=
+  let input := trim k s
+  match numAttr "max-depth".toList input, numAttr "max-solutions".toList input with
+  | .ok d, .ok m => .ok (d.getD 10, m.getD 1)
+  | .panic, _ => .panic
+  | _, .panic => .panic
+  | _, _ => .err
 
 /-- `find_matching_brace` (fixed: byte offsets): `Some(i + 1)` -/
 def braceGo : Str → Nat → Int → Bool → Bool → Option Nat
@@ -804,15 +849,48 @@ def parseExpr (k : Cls) (s : Str) : R Expr :=
   | .ok e _ => .ok e
   | .err => .err | .panic => .panic | .oof => .oof
 
+/-- `str::strip_prefix(pat)` at byte level: `starts_with(pat)`, then the slice `&s[pat.len()..]`.
+`none` = the slice panicked (never: `stripPrefix_no_panic`); `some none` = no such prefix -/
+def stripPrefixB (pat s : Str) : Option (Option Str) :=
+  if pat.isPrefixOf s then
+    match sliceFrom s (blen pat) with
+    | some r => some (some r)
+    | none => none
+  else some none
+
+/-- the NOT keyword of `QueryParser::parse`: `trimmed.strip_prefix("NOT ")` — `(is_negated, actual_query)` -/
+def notPrefix (t : Str) : R (Bool × Str) :=
+  match stripPrefixB "NOT ".toList t with
+  | none => .panic
+  | some (some rest) => .ok (true, rest)
+  | some none => .ok (false, t)
+
+/-- a variant that recognises the keyword by a test on a character CLASS (`starts_with("NOT") && trimmed[3..].starts_with(
+char::is_whitespace)`) and then skips the separator with the FIXED byte offset `&trimmed[4..]`: refuted by
+`notPrefixFixedOffset_counterexample` (a multi-byte white space character after NOT) -/
+def notPrefixFixedOffset (k : Cls) (t : Str) : R (Bool × Str) :=
+  if "NOT".toList.isPrefixOf t && ((t.drop 3).head?.map k.white).getD false then
+    match sliceFrom t 4 with
+    | some rest => .ok (true, trimStart k rest)
+    | none => .panic
+  else .ok (false, t)
+
 /-- `QueryParser::parse`: `(is_negated, expression)` -/
 def parseQuery (k : Cls) (s : Str) : R (Bool × Expr) :=
   if s.isEmpty then .err
   else
-    let t := trim k s
-    let neg := "NOT ".toList.isPrefixOf t        -- strip_prefix("NOT ")
-    match parseExpr k (if neg then t.drop 4 else t) with
-    | .ok e => .ok (neg, e)
+    match notPrefix (trim k s) with
+    | .ok (neg, q) =>
+      (match parseExpr k q with
+       | .ok e => .ok (neg, e)
+       | .err => .err | .panic => .panic | .oof => .oof)
     | .err => .err | .panic => .panic | .oof => .oof
+
+/-- `QueryParser::validate`: `parse(query).map(|_| ())` -/
+def validateQuery (k : Cls) (s : Str) : R Unit :=
+  match parseQuery k s with
+  | .ok _ => .ok ()
+  | .err => .err | .panic => .panic | .oof => .oof
 
 /-! ## K3 / (c) — src/parser/grl.rs `parse_when_clause`: slicing skeleton and recursion
 (`parse_single_condition` — regex driven — and the body of `parse_accumulate_condition` are parameters) -/
